@@ -25,7 +25,10 @@ SETUPS = {
 OPTIONS = ["", ", {}", ", { props: userProps }", ", { emits: ['u'] }", ", { name: 'UserName' }", ", { 'props': userProps }", ", { props }",
            ", { props() { return {} } }", ", { ['name']: 'UserName' }", ", { ...opts }", ", { ...opts, inheritAttrs: false }",
            ", { inheritAttrs: false, ...opts }", ", { ...a, ...b }", ", opts", ", makeOpts()", ", ...rest", ", { props: userProps, emits: [], name: 'N' }",
-           ", { get name() { return 'G' } }", ", { name }", ", cond ? a : b"]
+           ", { get name() { return 'G' } }", ", { name }", ", cond ? a : b",
+           # the options expression behind a syntactic wrapper
+           ", { name: 'UserName' } as any", ", ({ props: userProps })", ", { emits: ['u'] } as const", ", { name: 'UserName', props: userProps } satisfies object",
+           ", ({ ...opts, name: 'N' } as any)", ", opts as any", ", ({ inheritAttrs: false })", ", { props: userProps }!", ", (opts)", ", {} as any"]
 DECLS = ["const C = CALL;", "let C = CALL;", "var C = CALL;", "export const C = CALL;", "export default CALL;", "let C; C = CALL;", "CALL;",
          "const { x } = CALL;", "const C = wrap(CALL);", "const C: Component = CALL;"]
 
@@ -374,7 +377,8 @@ def c18_case(r, i):
             p.ty = r.pick(["() => void", "Function", "(() => void) | string", "string", "number"])
     ty = tg.literal(props) if r.chance(0.7) else tg.encode(props, allow_after=False)
     entries = []
-    dyn = r.wpick([("static", 7), ("ident", 1), ("spread", 1), ("computed-ident", 1), ("computed-expr", 1)])
+    dyn = r.wpick([("static", 7), ("ident", 1), ("spread", 1), ("computed-ident", 1), ("computed-expr", 1), ("computed-tpl", 1), ("computed-tpl-subst", 1),
+                   ("computed-member", 1), ("wrapped", 1)])
     for p in props:
         if r.chance(0.25):
             continue
@@ -407,9 +411,17 @@ def c18_case(r, i):
         d = "{ " + ", ".join(entries + ["...dflt"]) + " }"
     elif dyn == "computed-ident":
         d = "{ " + ", ".join(entries + ["[k]: 1"]) + " }"
+    elif dyn == "computed-tpl":
+        d = "{ " + ", ".join(entries + ["[`%s`]: 1" % props[0].name]) + " }"
+    elif dyn == "computed-tpl-subst":
+        d = "{ " + ", ".join(entries + [r.pick(["[`${k}Size`]: 1", "[`%s${k}`]: 2" % props[0].name, "[`${k}`]() {}", "[`%s${''}`]: 3" % props[-1].name])]) + " }"
+    elif dyn == "computed-member":
+        d = "{ " + ", ".join(entries + [r.pick(["[obj.k]: 1", "[f()]: 1", "[1 + 1]: 1", "[Symbol.iterator]: 1"])]) + " }"
+    elif dyn == "wrapped":
+        d = r.pick(["({ %s })", "{ %s } as any", "{ %s } satisfies object", "({ %s } as const)"]) % ", ".join(entries)
     else:
         d = "{ " + ", ".join(entries + ["['fo' + 'o']: 1"]) + " }"
-    pre = "const foo = 1, bar = 2, baz = 3, qux = 4, v = 5, title = 't', camelCase = 0, x = 1, a = 1, b = 2;\n"
+    pre = "const foo = 1, bar = 2, baz = 3, qux = 4, v = 5, title = 't', camelCase = 0, x = 1, a = 1, b = 2, obj = { k: 'foo' }, f = () => 'foo';\n"
     call = pre + "const C%d = defineComponent((props: %s = %s) => {});" % (i, ty, d)
     for j in range(r.wpick([(0, 6), (1, 3), (2, 1)])):
         tg.used["multi-call"] += 1
